@@ -9,7 +9,7 @@ from gen_programs import Gen, Scope
 
 PID = "C02"
 MANIFEST = {
-    "text": "43 Coq theorems.  LET2 round: WEAKENING IS PROVED (C02_weakening, _impl, _generic; proofs/C02Weak.v): a binding "
+    "text": "47 Coq theorems.  LET2 round: WEAKENING IS PROVED (C02_weakening, _impl, _generic; proofs/C02Weak.v): a binding "
             "of a name x that nothing mentions changes nothing — from scope chains that agree on every name other than x and "
             "the same store, an expression in which x does not occur (nocc: not as identifier, {x} key, assignment target or "
             "parameter) evaluates to the same outcome and store, the chains stay in agreement, and no value mentioning x "
@@ -27,8 +27,12 @@ MANIFEST = {
             "x = 1; f(1) + x is 3, f(1) + 1 fails; reproduced on the CLI).  Still PARTIAL / kept as Props: "
             "C02_let_program_full with freshness = 'x not free' instead of 'x does not occur' (a lambda whose PARAMETER is x, "
             "or that captured its own x, is excluded by nocc/vnm although it cannot observe the binding: needs the two-mode "
-            "relation 'chains agree on all names once x is shadowed'), C02_let_abstraction_full (several occurrences; "
-            "occurrences under lambdas / do-blocks).  The LET-SEQ stream now has a MODEL SIDE: the same program pairs through "
+            "relation 'chains agree on all names once x is shadowed'), C02_let_abstraction_full (occurrences under lambdas / "
+            "do-blocks).  SEVERAL occurrences in sequential position ARE proved (C02_let_program_multi, "
+            "C02_let_abstraction_seq_multi_partial: sctxs = reflexive-transitive closure of sctx, C[x, x] -> C[s, x] -> C[s, s]; "
+            "each step has its own renaming — the k-th evaluation of s allocates a fresh block — and equality up to cell "
+            "indices composes).  New stream LET-FRESHNESS: the witnesses of the two _refuted lemmas and four controls, on "
+            "the implementation and through the model.  The LET-SEQ stream now has a MODEL SIDE: the same program pairs through "
             "run_program_full by vm_compute, compared with the implementation line by line, and the law re-evaluated on the "
             "model's outcomes.  LET round: WELL-FORMEDNESS (the scope chain mentions existing function cells only) IS AN "
             "INVARIANT — preserved by every evaluation (every expression form, FunctionDef::call, every depth), every result "
